@@ -461,13 +461,22 @@ package checkers
 //@   call warnCond#1 requires @claim-always-false arg1 != nil && arg1.Op == token.LAND && typeIs(unparen(arg1.X), "*ast.BinaryExpr") && typeIs(unparen(arg1.Y), "*ast.BinaryExpr") && alwaysFalsePair(c.ctx, cast(unparen(arg1.X), "*ast.BinaryExpr"), cast(unparen(arg1.Y), "*ast.BinaryExpr"))
 
 // `if x == nil { return x }`: the returned expression is the tested one, it is side-effect free, the comparison is against
-// the predeclared nil, and the return is the first and only statement of the branch
+// the predeclared nil, the return is the first and only statement of the branch, and returning it does not wrap a nil pointer
+// into a (non-nil) interface value
+// whether returning x as the k-th result converts a non-interface value to an interface (a function of the syntax tree and the
+// type information; the helper's result is used under this name)
+//@ abstract becomesIface(ret ref, k int, x iface) bool
+//@ func (*nilValReturnChecker).becomesInterface
+//@   prop C12
+//@   nosafety node shapes are the subject of the C01 sweep
+//@   abstracts result as becomesIface(ret, i, x)
+
 //@ func (*nilValReturnChecker).VisitStmt
 //@   prop C12
 //@   nosafety node shapes are the subject of the C01 sweep
 //@   astvalid
 //@   requires c != nil && ctxOK(c.ctx)
-//@   call (*nilValReturnChecker).warn requires @claim-returned-value-is-nil typeIs(stmt, "*ast.IfStmt") && len(cast(stmt, "*ast.IfStmt").Body.List) == 1 && cast(stmt, "*ast.IfStmt").Body.List[0] == arg1 && typeIs(arg1, "*ast.ReturnStmt") && typeIs(cast(stmt, "*ast.IfStmt").Cond, "*ast.BinaryExpr") && cast(cast(stmt, "*ast.IfStmt").Cond, "*ast.BinaryExpr").Op == token.EQL && cast(cast(stmt, "*ast.IfStmt").Cond, "*ast.BinaryExpr").X == arg2 && sideEffectFree(c.ctx.TypesInfo, arg2) && tvIsNil(c.ctx.TypesInfo.Types[cast(cast(stmt, "*ast.IfStmt").Cond, "*ast.BinaryExpr").Y]) && (exists k int :: 0 <= k && k < len(cast(arg1, "*ast.ReturnStmt").Results) && astEq(arg2, cast(arg1, "*ast.ReturnStmt").Results[k]))
+//@   call (*nilValReturnChecker).warn requires @claim-returned-value-is-nil typeIs(stmt, "*ast.IfStmt") && len(cast(stmt, "*ast.IfStmt").Body.List) == 1 && cast(stmt, "*ast.IfStmt").Body.List[0] == arg1 && typeIs(arg1, "*ast.ReturnStmt") && typeIs(cast(stmt, "*ast.IfStmt").Cond, "*ast.BinaryExpr") && cast(cast(stmt, "*ast.IfStmt").Cond, "*ast.BinaryExpr").Op == token.EQL && cast(cast(stmt, "*ast.IfStmt").Cond, "*ast.BinaryExpr").X == arg2 && sideEffectFree(c.ctx.TypesInfo, arg2) && tvIsNil(c.ctx.TypesInfo.Types[cast(cast(stmt, "*ast.IfStmt").Cond, "*ast.BinaryExpr").Y]) && (exists k int :: 0 <= k && k < len(cast(arg1, "*ast.ReturnStmt").Results) && astEq(arg2, cast(arg1, "*ast.ReturnStmt").Results[k]) && !becomesIface(cast(arg1, "*ast.ReturnStmt"), k, arg2))
 
 // dupSubExpr: the two operands are the same value - one side-effect-free expression written twice
 //@ func (*dupSubExprChecker).checkBinaryExpr
